@@ -1,6 +1,7 @@
 (* C04 lemmas *)
 From Coq Require Import NArith.
 From Slsk Require Import Base.Tac.
+From SlskGen Require Import C04Gen.
 From Slsk Require Import C04.Model.
 Open Scope Z_scope.
 
@@ -131,71 +132,76 @@ Qed.
 
 (* ---- recv ------------------------------------------------------------------------------------ *)
 
+Lemma recv_unfold : forall R ps got,
+  recv R ps got =
+  if recv_more got R then
+    match ps with
+    | [] => ([], false)
+    | p :: ps' => let '(w, r) := recv R ps' (got + len p) in (p :: w, r)
+    end
+  else ([], true).
+Proof. intros R ps got. destruct ps; reflexivity. Qed.
+
 Lemma recv_prefix : forall ps R got w r, recv R ps got = (w, r) -> exists rest, ps = w ++ rest.
 Proof.
-  induction ps as [|p ps IH]; intros R got w r H; cbn [recv] in H.
+  induction ps as [|p ps IH]; intros R got w r H; rewrite recv_unfold in H; destruct (recv_more got R).
   - inv H. now exists [].
-  - destruct (Z.leb R (got + len p)).
-    + inv H. now exists ps.
-    + destruct (recv R ps (got + len p)) as [w' r'] eqn:E. inv H.
-      destruct (IH _ _ _ _ E) as [rest ->]. now exists rest.
+  - inv H. now exists [].
+  - destruct (recv R ps (got + len p)) as [w' r'] eqn:E. inv H.
+    destruct (IH _ _ _ _ E) as [rest ->]. now exists rest.
+  - inv H. now exists (p :: ps).
 Qed.
 
 (* the loop leaves through the test only when the counter has reached the target *)
 Lemma recv_reached : forall ps R got w, recv R ps got = (w, true) -> R <= got + len (concat w).
 Proof.
-  induction ps as [|p ps IH]; intros R got w H; cbn [recv] in H.
+  induction ps as [|p ps IH]; intros R got w H; rewrite recv_unfold in H; unfold recv_more in H;
+    destruct (Z.ltb_spec got R).
   - inv H.
-  - destruct (Z.leb_spec R (got + len p)).
-    + inv H. cbn. rewrite app_nil_r. lia.
-    + destruct (recv R ps (got + len p)) as [w' r'] eqn:E. inv H.
-      apply IH in E. cbn [concat]. rewrite len_app. lia.
+  - inv H. change (len (concat [])) with 0. lia.
+  - destruct (recv R ps (got + len p)) as [w' r'] eqn:E. inv H.
+    apply IH in E. cbn [concat]. rewrite len_app. lia.
+  - inv H. change (len (concat [])) with 0. lia.
 Qed.
 
 (* ... and when it runs out of data everything was consumed and the target was not reached *)
 Lemma recv_exhausted : forall ps R got w, recv R ps got = (w, false) ->
-  w = ps /\ (ps <> [] -> got + len (concat ps) < R).
+  w = ps /\ got + len (concat ps) < R.
 Proof.
-  induction ps as [|p ps IH]; intros R got w H; cbn [recv] in H.
-  - inv H. split; [reflexivity|congruence].
-  - destruct (Z.leb_spec R (got + len p)).
-    + inv H.
-    + destruct (recv R ps (got + len p)) as [w' r'] eqn:E. inv H.
-      apply IH in E. destruct E as [-> E]. split; [reflexivity|]. intros _.
-      cbn [concat]. rewrite len_app. destruct ps as [|q qs].
-      * change (len (concat [])) with 0. lia.
-      * specialize (E ltac:(discriminate)). lia.
+  induction ps as [|p ps IH]; intros R got w H; rewrite recv_unfold in H; unfold recv_more in H;
+    destruct (Z.ltb_spec got R).
+  - inv H. change (len (concat [])) with 0. split; [reflexivity|lia].
+  - inv H.
+  - destruct (recv R ps (got + len p)) as [w' r'] eqn:E. inv H.
+    apply IH in E. destruct E as [-> E]. split; [reflexivity|].
+    cbn [concat]. rewrite len_app. lia.
+  - inv H.
 Qed.
 
 (* no excess: every piece is consumed, and the loop stops by the test exactly when the total
-   equals the target *)
-Lemma recv_exact : forall ps R got, Forall (fun p => p <> []) ps -> ps <> [] ->
-  got + len (concat ps) <= R -> recv R ps got = (ps, Z.eqb R (got + len (concat ps))).
+   reaches the target *)
+Lemma recv_exact : forall ps R got, Forall (fun p => p <> []) ps ->
+  got + len (concat ps) <= R -> recv R ps got = (ps, Z.leb R (got + len (concat ps))).
 Proof.
-  induction ps as [|p ps IH]; intros R got Hne Hnn Hle; [congruence|].
-  inversion Hne as [|? ? Hp Hps]; subst. cbn [recv concat] in *. rewrite len_app in *.
-  destruct ps as [|q qs].
-  - change (len (concat [])) with 0 in *. cbn [recv].
-    destruct (Z.leb_spec R (got + len p)); f_equal; symmetry; [apply Z.eqb_eq|apply Z.eqb_neq]; lia.
-  - assert (1 <= len (concat (q :: qs))).
-    { inversion Hps; subst. cbn [concat]. rewrite len_app. pose proof (len_pos q H1).
-      pose proof (len_nonneg (concat qs)). lia. }
-    destruct (Z.leb_spec R (got + len p)); [lia|].
-    rewrite IH; [|assumption|discriminate|lia].
-    f_equal. f_equal. lia.
+  induction ps as [|p ps IH]; intros R got Hne Hle; rewrite recv_unfold; unfold recv_more.
+  - change (len (concat [])) with 0 in *. rewrite Z.add_0_r.
+    destruct (Z.ltb_spec got R); f_equal; symmetry; [apply Z.leb_gt|apply Z.leb_le]; lia.
+  - inversion Hne as [|? ? Hp Hps]; subst. cbn [concat] in *. rewrite len_app in *.
+    pose proof (len_pos p Hp). pose proof (len_nonneg (concat ps)).
+    destruct (Z.ltb_spec got R); [|lia].
+    rewrite IH; [|assumption|lia]. f_equal. f_equal. lia.
 Qed.
 
 (* ---- download session ------------------------------------------------------------------------ *)
 
 Lemma download_core_written : forall a local ok ps t,
-  exists w, d_local (download_core a local ok ps t) = local ++ w /\ prefix w (concat ps)
-            /\ d_bt (download_core a local ok ps t) = len local + len w.
+  exists w, d_local (download_core a local ok ps t) = local ++ w /\ prefix w (concat ps).
 Proof.
-  intros a local ok ps t. unfold download_core.
-  destruct ok; cbn [negb]; [|exists []; cbn; rewrite app_nil_r; split; [reflexivity|split; [apply prefix_nil|unfold len; cbn; lia]]].
-  destruct a as [fsz|]; [|exists []; cbn; rewrite app_nil_r; split; [reflexivity|split; [apply prefix_nil|unfold len; cbn; lia]]].
-  destruct (recv (fsz - len local) ps 0) as [w r] eqn:E. cbn.
-  exists (concat w). split; [reflexivity|]. split; [|reflexivity].
+  intros a local ok ps t. unfold download_core, download_append.
+  destruct a as [fsz|]; [|exists []; cbn; rewrite app_nil_r; split; [reflexivity|apply prefix_nil]].
+  destruct ok; cbn [negb]; [|exists []; cbn; rewrite app_nil_r; split; [reflexivity|apply prefix_nil]].
+  destruct (recv (recv_size fsz (len local)) ps 0) as [w r] eqn:E. cbn.
+  exists (concat w). split; [reflexivity|].
   destruct (recv_prefix _ _ _ _ _ E) as [rest ->]. rewrite concat_app. now exists (concat rest).
 Qed.
 
@@ -203,7 +209,7 @@ Lemma keeps_prefix : forall a local ok stream t chunks,
   exists w, d_local (download_session a local ok stream t chunks) = local ++ w /\ prefix w stream.
 Proof.
   intros. unfold download_session.
-  destruct (download_core_written a local ok (pieces chunks stream) t) as (w & H1 & H2 & _).
+  destruct (download_core_written a local ok (pieces chunks stream) t) as (w & H1 & H2).
   exists w. rewrite pieces_concat in H2. auto.
 Qed.
 
@@ -220,10 +226,10 @@ Lemma complete_len : forall a local ok ps t,
   d_state (download_core a local ok ps t) = DComplete ->
   a = Some (len (d_local (download_core a local ok ps t))).
 Proof.
-  intros a local ok ps t. unfold download_core.
-  destruct ok; cbn [negb]; [|cbn; discriminate].
+  intros a local ok ps t. unfold download_core, download_append, is_transfered_b, progress_add.
   destruct a as [fsz|]; [|cbn; discriminate].
-  destruct (recv (fsz - len local) ps 0) as [w r]. cbn.
+  destruct ok; cbn [negb]; [|cbn; discriminate].
+  destruct (recv (recv_size fsz (len local)) ps 0) as [w r]. cbn.
   destruct (r || match t with TEof => true | _ => false end); [|discriminate].
   destruct (Z.eqb_spec fsz (len local + len (concat w))); [|discriminate].
   intros _. rewrite len_app. now subst.
@@ -241,33 +247,45 @@ Lemma complete_sound_download : forall src local ok stream t chunks,
 Proof.
   intros src local ok stream t chunks Hl Hs Hc.
   pose proof (session_prefix_inv src (Some (len src)) local ok stream t chunks Hl Hs) as Hp.
-  apply complete_sound_dishonest in Hc. inv Hc. apply prefix_full; [assumption|lia].
+  apply complete_sound_dishonest in Hc.
+  assert (E : forall x y : Z, Some x = Some y -> x = y) by (intros x y K; now inversion K).
+  apply E in Hc. apply prefix_full; [assumption|]. rewrite <- Hc. lia.
 Qed.
 
-(* the state never is COMPLETE/FAILED/INCOMPLETE-with-loss: whatever was delivered without
-   excess is in the file *)
+(* nothing expected (local file as large as, or larger than, the announced size): nothing is read,
+   so nothing a sender pushes is appended *)
+Lemma nothing_expected_nothing_written : forall fsz local stream t chunks,
+  fsz <= len local ->
+  d_local (download_session (Some fsz) local true stream t chunks) = local /\
+  d_state (download_session (Some fsz) local true stream t chunks) =
+    (if Z.eqb fsz (len local) then DComplete else DFailedCancelled).
+Proof.
+  intros fsz local stream t chunks H.
+  unfold download_session, download_core, download_append, is_transfered_b, progress_add, recv_size. cbn [negb].
+  rewrite recv_unfold. unfold recv_more. destruct (Z.ltb_spec 0 (fsz - len local)); [lia|].
+  cbn. change (len []) with 0. rewrite app_nil_r, Z.add_0_r. auto.
+Qed.
+
+(* no excess: whatever was delivered is in the file *)
 Lemma no_excess_all_kept : forall fsz local stream t chunks,
   len stream <= fsz - len local \/ stream = [] ->
   d_local (download_session (Some fsz) local true stream t chunks) = local ++ stream /\
   d_bt (download_session (Some fsz) local true stream t chunks) = len local + len stream /\
   d_state (download_session (Some fsz) local true stream t chunks) =
-    (if (if stream then false else Z.eqb (fsz - len local) (len stream))
-        || match t with TEof => true | _ => false end
+    (if Z.leb (fsz - len local) (len stream) || match t with TEof => true | _ => false end
      then (if Z.eqb fsz (len local + len stream) then DComplete else DFailedCancelled)
      else DIncomplete).
 Proof.
-  intros fsz local stream t chunks H. unfold download_session, download_core. cbn [negb].
+  intros fsz local stream t chunks H.
+  unfold download_session, download_core, download_append, is_transfered_b, progress_add, recv_size. cbn [negb].
   pose proof (pieces_concat chunks stream) as Hc. pose proof (pieces_nonempty chunks stream) as Hn.
-  destruct stream as [|b s'].
-  - assert (pieces chunks [] = []) as -> by (destruct chunks; reflexivity).
-    cbn [recv concat map d_local d_bt d_state orb]. change (len []) with 0.
-    rewrite app_nil_r, Z.add_0_r. auto.
-  - destruct H as [H|H]; [|discriminate].
-    set (st := b :: s') in *.
-    rewrite recv_exact; [|assumption| |rewrite Hc; lia].
-    + rewrite Hc. cbn [d_local d_bt d_state]. replace (0 + len st) with (len st) by lia.
-      subst st. cbn iota. auto.
-    + intros E. rewrite E in Hc. subst st. discriminate.
+  destruct H as [H|H].
+  - rewrite recv_exact; [|assumption|rewrite Hc; lia].
+    rewrite Hc. cbn [d_local d_bt d_state]. replace (0 + len stream) with (len stream) by lia. auto.
+  - subst stream. assert (pieces chunks [] = []) as -> by (destruct chunks; reflexivity).
+    rewrite recv_unfold. unfold recv_more. change (len []) with 0.
+    destruct (Z.ltb_spec 0 (fsz - len local)), (Z.leb_spec (fsz - len local) 0); try lia;
+      cbn; change (len []) with 0; rewrite app_nil_r, Z.add_0_r; auto.
 Qed.
 
 Lemma cut_keeps_all : forall fsz local stream t chunks,
@@ -292,14 +310,14 @@ Proof.
     destruct (recv _ (pieces c1 stream) 0), (recv _ (pieces c2 stream) 0). reflexivity.
 Qed.
 
-Lemma resume_offset : forall a local stream t chunks,
-  let r := download_session a local true stream t chunks in
+Lemma resume_offset : forall fsz local stream t chunks,
+  let r := download_session (Some fsz) local true stream t chunks in
   d_offset r = Some (len local) /\ d_wire r = le 8 (Z.to_N (len local)) /\
   (len local < 2 ^ 64 -> Z.of_N (le_decode (d_wire r)) = len local).
 Proof.
-  intros a local stream t chunks r.
+  intros fsz local stream t chunks r.
   assert (d_offset r = Some (len local) /\ d_wire r = le 8 (Z.to_N (len local))) as [A B].
-  { subst r. unfold download_session, download_core. cbn [negb]. destruct a; [|now cbn].
+  { subst r. unfold download_session, download_core, offset_width. cbn [negb].
     destruct (recv _ _ 0). now cbn. }
   repeat split; try assumption. intros H. rewrite B, le_decode_le.
   - pose proof (len_nonneg local). lia.
@@ -307,9 +325,14 @@ Proof.
     change (2 ^ 64) with 18446744073709551616 in H. lia.
 Qed.
 
-Lemma no_offset_no_write : forall a local stream t chunks,
-  let r := download_session a local false stream t chunks in
-  d_local r = local /\ d_state r = DWedgedInit /\ d_offset r = None.
+Lemma no_offset_no_write : forall fsz local stream t chunks,
+  let r := download_session (Some fsz) local false stream t chunks in
+  d_local r = local /\ d_state r = DQueued /\ d_offset r = None /\ d_wire r = [].
+Proof. intros. subst r. unfold download_session, download_core. now cbn. Qed.
+
+Lemma refused_untouched : forall local ok stream t chunks,
+  let r := download_session None local ok stream t chunks in
+  d_local r = local /\ d_state r = DRefused /\ d_offset r = None /\ d_wire r = [].
 Proof. intros. subst r. unfold download_session, download_core. now cbn. Qed.
 
 (* ---- pair / retry ----------------------------------------------------------------------------- *)
@@ -347,69 +370,39 @@ Lemma rest_len : forall local src, prefix local src ->
   len (dropN (Z.to_N (len local)) src) = len src - len local.
 Proof. intros local src H. rewrite (prefix_split _ _ H) at 2. rewrite len_app. lia. Qed.
 
+(* a fault-free attempt completes the file, whatever is missing - also nothing *)
 Lemma fault_free_completes : forall src local ch,
-  prefix local src -> len local < len src ->
+  prefix local src ->
   d_state (pair_download src local NoFault ch) = DComplete /\
   d_local (pair_download src local NoFault ch) = src.
 Proof.
-  intros src local ch H Hlt. unfold pair_download.
+  intros src local ch H. unfold pair_download.
   pose proof (rest_len _ _ H) as Hr.
   destruct (no_excess_all_kept (len src) local (dropN (Z.to_N (len local)) src) TTimeout ch) as (A & _ & C).
   { left. lia. }
   rewrite A, C. rewrite <- (prefix_split _ _ H). split; [|reflexivity].
-  destruct (dropN (Z.to_N (len local)) src) eqn:E.
-  - unfold len at 1 in Hr. cbn in Hr. lia.
-  - rewrite Hr. rewrite Z.eqb_refl. cbn. replace (len src =? len local + (len src - len local)) with true by lia.
-    reflexivity.
+  rewrite Hr. replace (len src - len local <=? len src - len local) with true by lia.
+  replace (len src =? len local + (len src - len local)) with true by lia. reflexivity.
 Qed.
 
-Lemma eventual_partial : forall fs src local ch,
-  prefix local src -> len (retry src local fs) < len src ->
+Lemma eventual : forall fs src local ch,
+  prefix local src ->
   d_state (pair_download src (retry src local fs) NoFault ch) = DComplete /\
   d_local (pair_download src (retry src local fs) NoFault ch) = src.
-Proof. intros. apply fault_free_completes; [now apply prefix_inv|assumption]. Qed.
-
-(* empty remainder: a fault-free attempt ends INCOMPLETE (by the read timeout) and leaves the file
-   as it is, so every further attempt does the same *)
-Lemma empty_remainder_stuck : forall src ch,
-  d_state (pair_download src src NoFault ch) = DIncomplete /\
-  d_local (pair_download src src NoFault ch) = src.
-Proof.
-  intros src ch. unfold pair_download.
-  assert (E : dropN (Z.to_N (len src)) src = []).
-  { rewrite dropN_skipn, to_nat_len. apply skipn_all. }
-  rewrite E. destruct (no_excess_all_kept (len src) src [] TTimeout ch) as (A & _ & C); [now right|].
-  rewrite A, C. cbn. now rewrite app_nil_r.
-Qed.
-
-Lemma empty_remainder_stuck_forever : forall n src ch,
-  retry src src (repeat (NoFault, ch) n) = src /\
-  d_state (pair_download src (retry src src (repeat (NoFault, ch) n)) NoFault ch) = DIncomplete.
-Proof.
-  induction n as [|n IH]; intros src ch; cbn [repeat retry].
-  - split; [reflexivity|apply empty_remainder_stuck].
-  - destruct (empty_remainder_stuck src ch) as [_ ->]. apply IH.
-Qed.
-
-Lemma eventual_refuted : exists src local fs ch,
-  prefix local src /\ d_state (pair_download src (retry src local fs) NoFault ch) <> DComplete.
-Proof. exists [], [], [], []. split; [apply prefix_nil|]. vm_compute. discriminate. Qed.
+Proof. intros. apply fault_free_completes. now apply prefix_inv. Qed.
 
 (* ---- terminal states --------------------------------------------------------------------------- *)
 
-Definition d_terminal (s : dstate) : Prop := s = DComplete \/ s = DIncomplete \/ s = DFailedCancelled.
+Definition d_terminal (s : dstate) : Prop :=
+  s = DComplete \/ s = DIncomplete \/ s = DFailedCancelled \/ s = DQueued \/ s = DRefused.
 
-Lemma terminal_partial : forall fsz local stream t chunks,
-  d_terminal (d_state (download_session (Some fsz) local true stream t chunks)).
+Lemma terminal : forall a local ok stream t chunks,
+  d_terminal (d_state (download_session a local ok stream t chunks)).
 Proof.
-  intros. unfold d_terminal, download_session, download_core. cbn [negb].
-  destruct (recv _ _ 0). cbn. repeat destr_if; auto.
+  intros. unfold d_terminal, download_session, download_core.
+  destruct a; [|cbn; auto 6]. destruct ok; cbn [negb]; [|cbn; auto 6].
+  destruct (recv _ _ 0). cbn. repeat destr_if; auto 6.
 Qed.
-
-Lemma terminal_refuted :
-  (exists local stream t chunks, d_state (download_session None local true stream t chunks) = DWedged) /\
-  (exists a local stream t chunks, d_state (download_session a local false stream t chunks) = DWedgedInit).
-Proof. split; [exists [], [], TEof, []|exists (Some 1), [], [], TEof, []]; reflexivity. Qed.
 
 (* ---- upload ------------------------------------------------------------------------------------- *)
 
@@ -436,7 +429,7 @@ Proof. induction ps as [|p ps IH]; intros; cbn [send_loop]; [reflexivity|now rew
 Lemma upload_wire_prefix : forall src fsz o grant cut pc,
   prefix (u_wire (upload_session src fsz (Some o) grant cut pc)) (dropN o src).
 Proof.
-  intros. unfold upload_session, upload_core.
+  intros. unfold upload_session, upload_core, upload_seek.
   destruct (N.leb 9223372036854775808 o); [apply prefix_nil|].
   destruct (send_loop (chop_all grant (dropN o src)) cut 0) as [w ok] eqn:E.
   destruct (send_loop_prefix _ _ _ _ _ E) as [rest Hr].
@@ -451,7 +444,7 @@ Lemma complete_sound_upload : forall src fsz off grant cut pc,
     u_wire (upload_session src fsz off grant cut pc) = skipn (N.to_nat o) src /\
     fsz = Z.of_N o + len (skipn (N.to_nat o) src).
 Proof.
-  intros src fsz off grant cut pc. unfold upload_session, upload_core.
+  intros src fsz off grant cut pc. unfold upload_session, upload_core, upload_seek, is_transfered_b, progress_add.
   destruct off as [o|]; [|cbn; discriminate].
   destruct (N.leb 9223372036854775808 o); [cbn; discriminate|].
   destruct (send_loop (chop_all grant (dropN o src)) cut 0) as [w ok] eqn:E.
@@ -467,7 +460,7 @@ Lemma upload_grant_irrelevant : forall src fsz off g1 g2 pc,
   let r2 := upload_session src fsz off g2 None pc in
   u_wire r1 = u_wire r2 /\ u_state r1 = u_state r2 /\ u_bt r1 = u_bt r2.
 Proof.
-  intros src fsz off g1 g2 pc. unfold upload_session, upload_core. destruct off as [o|]; [|now cbn].
+  intros src fsz off g1 g2 pc. unfold upload_session, upload_core, upload_seek. destruct off as [o|]; [|now cbn].
   destruct (N.leb 9223372036854775808 o); [now cbn|].
   rewrite !send_loop_nocut, !chop_all_concat. cbn [negb]. destruct pc; cbn; auto.
 Qed.
@@ -477,7 +470,7 @@ Lemma pair_upload_complete : forall src local grant, prefix local src -> len src
   u_state (pair_upload src local NoFault grant) = UComplete /\
   local ++ u_wire (pair_upload src local NoFault grant) = src.
 Proof.
-  intros src local grant H Hs. unfold pair_upload, upload_session, upload_core.
+  intros src local grant H Hs. unfold pair_upload, upload_session, upload_core, upload_seek, is_transfered_b, progress_add.
   pose proof (prefix_len _ _ H). pose proof (len_nonneg local).
   change (2 ^ 63) with 9223372036854775808 in Hs.
   destruct (N.leb_spec 9223372036854775808 (Z.to_N (len local))); [lia|].
@@ -488,20 +481,24 @@ Proof.
   reflexivity.
 Qed.
 
-Definition u_terminal (s : ustate) : Prop := s = UComplete \/ s = UFailed \/ s = UQueued.
+Definition u_terminal (s : ustate) : Prop := s = UComplete \/ s = UFailed \/ s = UQueued \/ s = UFailedRead.
 
-(* the uploader ends in a terminal state when the offset is below 2^63 and the peer closes *)
-Lemma upload_terminal_partial : forall src fsz off grant cut,
-  match off with Some o => (o < 2 ^ 63)%N | None => True end ->
+(* the uploader ends in a terminal state whenever the peer closes, for every offset *)
+Lemma upload_terminal : forall src fsz off grant cut,
   u_terminal (u_state (upload_session src fsz off grant cut true)).
 Proof.
-  intros src fsz off grant cut H. unfold u_terminal, upload_session, upload_core.
+  intros src fsz off grant cut. unfold u_terminal, upload_session, upload_core.
   destruct off as [o|]; [|cbn; auto].
-  change (2 ^ 63)%N with 9223372036854775808%N in H.
-  destruct (N.leb_spec 9223372036854775808 o); [lia|].
+  destruct (N.leb 9223372036854775808 o); [cbn; auto|].
   destruct (send_loop _ cut 0) as [w ok]. destruct ok; cbn; [destr_if|]; auto.
 Qed.
 
-Lemma upload_terminal_refuted : exists src fsz o grant cut pc,
-  u_state (upload_session src fsz (Some o) grant cut pc) = UWedged.
-Proof. exists [], 0, 9223372036854775808%N, 1%N, None, true. reflexivity. Qed.
+(* an absurd offset fails the upload without sending anything *)
+Lemma upload_huge_offset : forall src fsz o grant cut pc, (2 ^ 63 <= o)%N ->
+  u_state (upload_session src fsz (Some o) grant cut pc) = UFailedRead /\
+  u_wire (upload_session src fsz (Some o) grant cut pc) = [].
+Proof.
+  intros src fsz o grant cut pc H. unfold upload_session, upload_core.
+  change (2 ^ 63)%N with 9223372036854775808%N in H.
+  destruct (N.leb_spec 9223372036854775808 o); [now cbn|lia].
+Qed.
